@@ -279,7 +279,7 @@ where
         Dq: Dimension + DimAdd<D::Smaller> + 'static,
         <Dq as DimAdd<D::Smaller>>::Output: DimExtension,
     {
-        //self.dim_check(xs.raw_dim(), buffer.raw_dim());
+        crate::assert_buffer_shape(self.get_buffer_shape(xs.raw_dim()).slice(), buffer.shape());
         if TypeId::of::<Dq>() == TypeId::of::<Ix1>() {
             // Safety: We checked that `Dq` has type `Ix1`.
             //    Therefor the `&ArrayBase<Sq, Dq>` and `&ArrayBase<Sq, Ix1>` must be the same type.
